@@ -627,6 +627,12 @@ func (broker *Broker) scan() []sts.Hashed {
 			// Add any that might have failed the hash calculation last time
 			wrapped = append(wrapped, &hashFile{File: cached})
 		case cached.IsDone() && broker.canDelete(cached):
+			if f, syncErr := store.Sync(cached); f != nil || syncErr != nil {
+				// The file changed after it was confirmed: what is on disk
+				// now is not what the receiver validated, so leave it alone
+				// (it gets hashed and sent again)
+				break
+			}
 			err = broker.Conf.Store.Remove(cached)
 			if err != nil {
 				broker.error("Failed to delete aged file:", cached.GetName())
